@@ -66,9 +66,17 @@ class KexCurve25519:
             "KexCurve25519 asked to handle packet type {:d}".format(ptype)
         )
 
+    def _load_peer_key(self, peer_key_bytes):
+        try:
+            return X25519PublicKey.from_public_bytes(peer_key_bytes)
+        except ValueError as e:
+            raise SSHException(
+                "invalid curve25519 public value from peer: {}".format(e)
+            )
+
     def _parse_kexecdh_init(self, m):
         peer_key_bytes = m.get_string()
-        peer_key = X25519PublicKey.from_public_bytes(peer_key_bytes)
+        peer_key = self._load_peer_key(peer_key_bytes)
         K = self._perform_exchange(peer_key)
         K = int(binascii.hexlify(K), 16)
         # compute exchange hash
@@ -106,7 +114,7 @@ class KexCurve25519:
         peer_key_bytes = m.get_string()
         sig = m.get_binary()
 
-        peer_key = X25519PublicKey.from_public_bytes(peer_key_bytes)
+        peer_key = self._load_peer_key(peer_key_bytes)
 
         K = self._perform_exchange(peer_key)
         K = int(binascii.hexlify(K), 16)
